@@ -45,7 +45,7 @@ theorem skip_remaining (n : Nat) (s : Src) (h0 : s.skip = 0) : (s.skipData n).re
     simp [this]
 
 section Generic
-variable {σ : Type} (step : Step σ)
+variable {σ α : Type} (step : Step σ α)
 
 /-- **Chunking is invisible**: an execution against any chunked delivery is an execution
 against the same bytes delivered at once -/
@@ -65,7 +65,7 @@ theorem chunks_to_whole (hst : Stable step) : ∀ s buf cs sf lf, ChunkRun step 
 /-- an execution on bytes delivered at once is deterministic -/
 theorem whole_deterministic : ∀ s d a b, ChunkRun step s d [] a b → ∀ a' b', ChunkRun step s d [] a' b' → a = a' ∧ b = b' := by
   intro s d a b h
-  generalize hcs : ([] : List (List Nat)) = cs at h
+  generalize hcs : ([] : List (List α)) = cs at h
   induction h with
   | done s buf hn =>
     intro a' b' h'
@@ -83,8 +83,8 @@ theorem whole_deterministic : ∀ s d a b, ChunkRun step s d [] a b → ∀ a' b
   | more s buf c cs sf lf _ _ _ => cases hcs
 
 /-- **Two deliveries of the same bytes end in the same state** with the same unread rest -/
-theorem chunking_independent (hst : Stable step) (s : σ) (cs1 cs2 : List (List Nat)) (h : cs1.flatten = cs2.flatten)
-    (a1 a2 : σ) (b1 b2 : List Nat) (h1 : ChunkRun step s [] cs1 a1 b1) (h2 : ChunkRun step s [] cs2 a2 b2) :
+theorem chunking_independent (hst : Stable step) (s : σ) (cs1 cs2 : List (List α)) (h : cs1.flatten = cs2.flatten)
+    (a1 a2 : σ) (b1 b2 : List α) (h1 : ChunkRun step s [] cs1 a1 b1) (h2 : ChunkRun step s [] cs2 a2 b2) :
     a1 = a2 ∧ b1 = b2 := by
   have w1 := chunks_to_whole step hst _ _ _ _ _ h1
   have w2 := chunks_to_whole step hst _ _ _ _ _ h2
